@@ -50,6 +50,9 @@ def run_generic(pid, tier, seed, replay=None):
             orch.evaluate(res, pid, ops, c, m, slack, known, oracle_fns)
             res.count("family", "%s/slack=%d" % (fam, slack))
             log("  %s %s slack=%d: %d ops in %.1fs" % (pid, fam, slack, len(ops), time.time() - t))
+    if not replay:
+        import fmtstage
+        fmtstage.run(pid, res, tier, seed, known)
     text = "theorems about the Lean models + differential correspondence + oracle on the implementation"
     return orch.finish(res, pid, lean_ok, lean_log, audit, forb, text, TRUSTED_COMMON,
                        ["caller declarations truthful as generated", "sequential execution"])
